@@ -659,8 +659,13 @@ class KBroker(PlainBroker):
         super().__init__()
         self.rec = rec
 
+    fail_next = False
+
     async def kick(self, message: BrokerMessage) -> None:
         self.rec.append(("kick", message.labels.get("schedule_id")))
+        if self.fail_next:
+            self.fail_next = False
+            raise ConnectionError("broker unreachable")
         self.sent.append(message)
 
 
@@ -676,6 +681,8 @@ def gen_c16a(rng: random.Random) -> Dict[str, Any]:
     return {"mode": "on_ready", "sid": f"sch-{rng.randint(0, 999)}", "task_name": rng.choice(["mod:task", "t", "ü.task"]),
             "args": [gen_json_tree(rng) for _ in range(rng.randint(0, 3))],
             "kwargs": {f"k{i}": gen_json_tree(rng) for i in range(rng.randint(0, 3))},
+            # the broker refuses the message (outage): nothing was sent, so the source is not told it was
+            "kick_fail": rng.random() < 0.1,
             "labels": labels, "cancel": rng.random() < 0.3, "pre_async": rng.random() < 0.5,
             "post_async": rng.random() < 0.5, "kind": rng.choice(["cron", "time"]),
             "inst_hooks": rng.random() < 0.2, "delegate": rng.random() < 0.2,
@@ -722,9 +729,23 @@ def run_c16a(spec: Dict[str, Any]) -> "tuple[List[Violation], Any]":
     async def main(loop: Any) -> None:
         await sch.on_ready(src, task)
 
+    kick_fail = bool(spec.get("kick_fail")) and not spec["cancel"]
+    broker.fail_next = kick_fail
     try:
         run_virtual(main)
+        if kick_fail:
+            v.append(Violation("send-failure-swallowed", f"the broker refused the message but on_ready() returned normally; callbacks {rec}"))
+            return v, rec
     except BaseException as exc:  # noqa: BLE001
+        if kick_fail:
+            from taskiq.exceptions import SendTaskError
+
+            want_f = [("pre_send", spec["sid"]), ("kick", spec["sid"])]
+            if rec != want_f:
+                v.append(Violation("callback-sequence", f"failed send: observed {rec}, expected {want_f} (post_send only after a message was sent)"))
+            if not isinstance(exc, SendTaskError):
+                v.append(Violation("send-error-type", f"failed send surfaced as {exc!r}"))
+            return v, rec
         v.append(Violation("on-ready-raised", f"on_ready raised {exc!r}"))
         return v, rec
     finally:
